@@ -222,8 +222,10 @@ def main(ctx: Ctx) -> int:
             fixed.append({"files": [("krome", "@format:idx,R,R,R,P,P,P,P,P,Tmin,Tmax,rate\n" + line + "\n")],
                           "declared": [{"tmin": int(round(rec["tmin"] * 100)), "tmax": int(round(rec["tmax"] * 100)), "idx": 1, "fmt": "krome", "line": line}],
                           "mods": {}, "may_refuse": True})
-    for ci in range(ncase + len(fixed)):
-        case = fixed[ci - ncase] if ci >= ncase else gen_case(rng, ci)
+    allcases = [gen_case(rng, ci) for ci in range(ncase)] + fixed
+    # second pass: the first networks once more at the end of the run (same process, after everything else was read and rendered)
+    allcases += [dict(c_) for c_ in allcases[:6]]
+    for ci, case in enumerate(allcases):
         d = ctx.sub("in") / str(ci)
         d.mkdir()
         flist, fmts = [], []
